@@ -370,7 +370,63 @@ def r14_9(ctx):
                     if not (isinstance(v, ast.ListComp) and at_least_one(v.elt)):
                         ok = False
                         why = f"`{short(ds) if ds is not None else 'parameter'}` reaches the call and does not force every element to be >= 1"
-            ctx.check(ok, f.fq, short(c), where, f"every element of `{norm(arg)}` is at least 1 at the call",
+            if ok:
+                # ... and the list is not EMPTY: the sum of no ratios is 0 as well.  Accepted: a dominating fact that the list
+                # itself, or the sequence every reaching comprehension iterates over (through local aliases), is non-empty.
+                from ..astutil import alias_map as _am, expand_alias as _ea
+                al_ = _am(f.node)
+                iters = set()
+                for d in defs:
+                    v = g.nodes[d].stmt.value
+                    it_ = v.generators[0].iter
+                    if isinstance(it_, ast.Call) and norm(it_.func) in ("zip", "enumerate") and it_.args:
+                        it_ = it_.args[-1] if norm(it_.func) == "zip" else it_.args[0]
+                    iters.add(norm(it_))
+                    iters.add(norm(_ea(it_, al_)))
+                # a filter-free comprehension is as long as what it iterates over: follow every assignment of the iterated names
+                # transitively (zip(..) contributes all its arguments; helpers such as ratio_reduce / _collapse_widths that
+                # take the list and return it re-weighted are assumed length-preserving - stated in the evidence)
+                def _iter_names(it_):
+                    if isinstance(it_, ast.Call) and norm(it_.func) in ("zip", "enumerate", "reversed", "list", "tuple"):
+                        out_ = []
+                        for a_ in it_.args:
+                            out_ += _iter_names(a_)
+                        return out_
+                    return [norm(it_), norm(_ea(it_, al_))]
+                work_ = list(iters)
+                for d in defs:
+                    for nm_ in _iter_names(g.nodes[d].stmt.value.generators[0].iter):
+                        if nm_ not in iters:
+                            iters.add(nm_)
+                            work_.append(nm_)
+                while work_:
+                    nm_ = work_.pop()
+                    for x_ in walk_local(f.node):
+                        if isinstance(x_, ast.Assign) and len(x_.targets) == 1 and norm(x_.targets[0]) == nm_:
+                            dv_ = x_.value
+                            new_ = []
+                            if isinstance(dv_, ast.ListComp) and len(dv_.generators) == 1 and not dv_.generators[0].ifs:
+                                new_ = _iter_names(dv_.generators[0].iter)
+                            elif isinstance(dv_, (ast.Name, ast.Attribute)):
+                                new_ = [norm(dv_)]
+                            for cand_ in new_:
+                                if cand_ not in iters:
+                                    iters.add(cand_)
+                                    work_.append(cand_)
+                truthy = set()
+                for nid in g.nodes_of(st):
+                    for t, v in g.branch_facts(nid):
+                        for a, tv in canon_test(t, v):
+                            if tv is True:
+                                truthy.add(a)
+                            if tv is False and a.startswith("not "):
+                                truthy.add(a[4:])
+                cands = {norm(arg)} | iters
+                nonempty = bool(cands & truthy) or any(f"len({x}) > 0" in truthy or f"len({x}) >= 1" in truthy for x in cands)
+                if not nonempty:
+                    ok = False
+                    why = f"every element of `{norm(arg)}` is at least 1, but nothing on the way to the call excludes the EMPTY list (no dominating test of {sorted(cands)}): a table without columns has no ratios, their sum is 0"
+            ctx.check(ok, f.fq, short(c), where, f"`{norm(arg)}` is non-empty and every element is at least 1 at the call",
                       f"`{short(c)}`: {why} - when every column measures 0 (empty cells, no padding) the sum of ratios is 0 and ratio_distribute's assertion fails: an expanding table raises AssertionError on render and on measure")
     ctx.floor(n, 2, "ratio_distribute call sites")
 
